@@ -2,19 +2,20 @@
 
     internal/rules/mechanisms/authenticators/jwt_authenticator.go
         getKey (cache look-up before the fetch, cache fill after uniqueness + certificate check),
-        calculateCacheKey (endpoint hash + RENDERED key-set URL + kid), createRequest (the JWKS URL is a
+        calculateCacheKey (endpoint hash + RENDERED key-set URL + kid + ttlHash(cache_ttl), the last since
+        fix: 8647e06), createRequest (the JWKS URL is a
         template over the token's UNVERIFIED `iss`: {{ .TokenIssuer }}), verifyTokenWithoutKID (never cached),
         isCacheEnabled / getCacheTTL (keys without certificates: cached iff the cache is enabled)
 
     One authenticator (prototype, possibly reconfigured per request on the rule level: the copies share the
-    endpoint and hence the cache entries) serves a history of requests against one cache.  Between the
+    endpoint, and the cache entries as far as they agree on the configured cache_ttl) serves a history of requests against one cache.  Between the
     requests the key sets published at the rendered URLs may change.  Time does not advance far enough for an
     entry to expire (expiry is C10's subject).  Several authenticators sharing the endpoint configuration (and
     hence the cache entries) but differing in validate_jwk are histories whose requests carry different
     [cf_validate_jwk]; keys may carry certificates (valid or not; certificates about to expire, which
     getCacheTTL refuses to cache, are not in this model).
 
-    The cache is a list of ((rendered url, kid), key); the endpoint hash is the same for all entries of one
+    The cache is a list of ((rendered url, kid, configured ttl), key); the endpoint hash is the same for all entries of one
     authenticator and is left out.  Faithful to the code as it is: the cached key is returned without any
     re-validation. *)
 From HV Require Import Base.Prelude Base.Time C05.Model.
@@ -38,19 +39,21 @@ Definition fetch (env : kenv) (url : string) : err + list jwk :=
   | Some (RGarbage, _) => inl EJwks
   end.
 
-Definition ckey := (string * string)%type.    (* rendered url, kid *)
+Definition ckey := (string * string * Z)%type.    (* rendered url, kid, ttlHash: -1 = cache_ttl not configured, else its value *)
 Definition kcache := list (ckey * jwk).
 
-Fixpoint cache_find (c : kcache) (url kid : string) : option jwk :=
+Fixpoint cache_find (c : kcache) (url kid : string) (ttl : Z) : option jwk :=
   match c with
   | [] => None
-  | ((u, k), v) :: r => if String.eqb u url && String.eqb k kid then Some v else cache_find r url kid
+  | ((u, k, t), v) :: r =>
+    if String.eqb u url && String.eqb k kid && (t =? ttl)%Z then Some v else cache_find r url kid ttl
   end.
 
 (** one request of the history *)
 Record kstep := {
   s_cf : config;            (* mechanism + rule-level assertions in force for this request ([cf_remote] is not used) *)
   s_cache_on : bool;        (* isCacheEnabled() of the authenticator copy that serves it *)
+  s_ttl : Z;                (* its configured cache_ttl as it enters the cache key: -1 = not configured, else ns *)
   s_templated : bool;       (* the jwks_endpoint url contains {{ .TokenIssuer }} *)
   s_env : kenv;
   s_now : Z;
@@ -67,7 +70,7 @@ Definition fetch_fill (s : kstep) (url kid : string) (c : kcache) : (err + jwk) 
   | inr ks =>
     match get_key (s_cf s) ks kid with
     | None => (inl EKey, c)
-    | Some k => (inr k, if s_cache_on s then ((url, kid), k) :: c else c)
+    | Some k => (inr k, if s_cache_on s then ((url, kid, s_ttl s), k) :: c else c)
     end
   end.
 
@@ -76,7 +79,7 @@ Definition fetch_fill (s : kstep) (url kid : string) (c : kcache) : (err + jwk) 
     one sharing the endpoint has cached).  [fixed_F4] = fixes/C05-F4.diff: the cached key is validated with the
     settings of the authenticator at hand, an entry that does not pass is ignored. *)
 Definition get_key_c (fixed_F4 : bool) (s : kstep) (url kid : string) (c : kcache) : (err + jwk) * kcache :=
-  match (if s_cache_on s then cache_find c url kid else None) with
+  match (if s_cache_on s then cache_find c url kid (s_ttl s) else None) with
   | Some k => if negb fixed_F4 || key_valid (s_cf s) k
               then (inr k, c)                                       (* "Reusing JWK from cache" *)
               else fetch_fill s url kid c
